@@ -465,6 +465,161 @@ def run(ctx):
                     ctx.bad(R_index, "D|%s|[%d]" % (path, mirg.op_int(idx)), "%s:%d" % (f.file, t["ln"]), "constant index [%d] into a buffer whose length is input-controlled (%s) and unchecked" % (mirg.op_int(idx), lw),
                             "an empty/short buffer panics with index out of bounds")
 
+    # K: a slice taken with constant bounds (`data[8..72]`, `&buf[..20]`, `hdr[4..]`) of a buffer that came from the input needs a length
+    # test that covers the far bound: `if data.len() < 64 { return Err }` does not license `data[8..72]`.  The guard's constant and
+    # the range's bounds are compiler-evaluated constants or literals (finite arithmetic on them is evaluated); the guard must
+    # diverge (return / ? / continue / break) and precede the slice in the function.
+    R_rng = ctx.rule("C05.K-constant-range-covered-by-length-guard", "every `buf[a..b]` with constant bounds on a parameter / input buffer in a function reachable from a parser entry point is preceded by a diverging guard that rejects len < b (or uses get(..))", floor=5)
+    from .c10 import _ival as _iv5, _NoEval as _NE5
+    def _cint(e):
+        try:
+            return _iv5(e, {}, {})
+        except (_NE5, Exception):
+            return None
+    for path in sorted(reach):
+        f = cg.fns[path]
+        if "::tests::" in path or "::test_utils" in path or "::debug::" in path or not f.hir:
+            continue
+        body = f.hir["body"]
+        idxs = [n for n in hirq.walk(body) if n.get("k") == "index" and hirq.strip(n["i"]).get("k") == "struct" and re.search(r"ops::range::Range(To|From|Inclusive|ToInclusive)?$", (hirq.strip(n["i"]).get("res") or {}).get("def") or "")]
+        if not idxs:
+            continue
+        order = None
+        pn = {b for p_ in f.hir["params"] for b in hirq.pat_binds(p_)}
+        for n in idxs:
+            rg = hirq.strip(n["i"])
+            fd = {nm: e for nm, e in rg["fields"]}
+            kind = rg["res"]["def"].rsplit("::", 1)[1]
+            hi = _cint(fd["end"]) if "end" in fd else None
+            lo = _cint(fd["start"]) if "start" in fd else None
+            if kind in ("RangeInclusive", "RangeToInclusive") and hi is not None:
+                hi += 1
+            need = hi if hi is not None else lo
+            if need is None or need == 0:
+                continue
+            base = hirq.strip(n["e"])
+            while base.get("k") in ("ref", "un", "cast"):
+                base = hirq.strip(base["e"])
+            bname = hirq.render(base)
+            # only buffers that carry input: a parameter, or a field / local that is not a fixed-size array
+            tyb = (ctx.prog.crate(path.split("::")[0]).ty(base.get("t")) if base.get("t") is not None else "") or ""
+            m_arr = re.search(r"\[u8; (\d+)\]", tyb)
+            if m_arr and int(m_arr.group(1)) >= need:
+                continue
+            if not (re.search(r"\[u8\]|Vec<u8>|&\[|Bytes|Cow", tyb)):
+                continue
+            if order is None:
+                order = {id(x): i for i, x in enumerate(hirq.walk(body))}
+            best = None
+            for g in hirq.find(body, "if"):
+                if order[id(g)] >= order[id(n)]:
+                    continue
+                if not any(x.get("k") in ("ret", "continue", "break") or (x.get("k") == "try") for x in hirq.walk(g["then"])):
+                    # the guarded form `if len >= K { .. slice .. }`
+                    if not (order[id(g)] < order[id(n)] and any(x is n for x in hirq.walk(g["then"]))):
+                        continue
+                inside0 = any(x is n for x in hirq.walk(g["then"]))
+                for cnd in hirq.walk(g["c"]):
+                    if cnd.get("k") == "mcall" and cnd["m"] == "is_empty" and hirq.render(cnd["recv"]).lstrip("&*(").rstrip(")") == bname.lstrip("&*(").rstrip(")"):
+                        # `if buf.is_empty() { return .. }` (or a disjunct of it) leaves at least one byte; `if !buf.is_empty() { .. slice .. }` too
+                        c0 = hirq.strip(g["c"])
+                        negated = any(u.get("k") == "un" and u.get("op") == "Not" and any(y is cnd for y in hirq.walk(u["e"])) for u in hirq.walk(c0))
+                        if (not inside0 and not negated and not any(b.get("k") == "bin" and b["op"] == "&&" for b in hirq.walk(c0))) or (inside0 and negated and not any(b.get("k") == "bin" and b["op"] == "||" for b in hirq.walk(c0))):
+                            best = max(best or 0, 1)
+                    if cnd.get("k") != "bin" or cnd["op"] not in ("<", "<=", ">", ">=", "!=", "=="):
+                        continue
+                    l_, r_ = hirq.strip(cnd["l"]), hirq.strip(cnd["r"])
+                    op = cnd["op"]
+                    if _cint(l_) is not None and _cint(r_) is None:
+                        l_, r_ = r_, l_
+                        op = {"<": ">", "<=": ">=", ">": "<", ">=": "<=", "==": "==", "!=": "!="}[op]
+                    kv = _cint(r_)
+                    if kv is None or not (l_.get("k") == "mcall" and l_["m"] == "len" and hirq.render(l_["recv"]).lstrip("&*(").rstrip(")") == bname.lstrip("&*(").rstrip(")")):
+                        continue
+                    inside = any(x is n for x in hirq.walk(g["then"]))
+                    # least length that survives the guard
+                    if inside:
+                        least = {">=": kv, ">": kv + 1, "==": kv}.get(op)
+                    else:
+                        least = {"<": kv, "<=": kv + 1, "!=": kv}.get(op)
+                    if least is not None:
+                        best = max(best or 0, least)
+            inst = {"fn": path, "slice": hirq.render(n)[:50], "needs_len": need, "line": n.get("ln")}
+            ctx.call_sites += 1
+            if best is not None and best >= need:
+                inst["guard_len"] = best
+                ctx.ok(R_rng, inst)
+            elif best is not None:
+                ctx.bad(R_rng, "K|%s|%s" % (path, re.sub(r"\s+", "", hirq.render(n["i"]))[:40]), "%s:%d" % (f.file, n.get("ln") or 0), "`%s` needs %d bytes; the length guard before it only rejects buffers shorter than %d" % (hirq.render(n)[:50], need, best),
+                        "a buffer of %d..%d bytes passes the check and the slice panics (range end out of range) instead of returning an error" % (best, need - 1))
+            else:
+                # no constant guard on this buffer in the function: left to the taint rules (the length may be established by the caller)
+                ctx.note_unarmed(R_rng, "%s|%s" % (path.split("::")[-1], hirq.render(n)[:40]), "no constant length guard on `%s` in this function (length established elsewhere or by construction)" % bname) if len(ctx.unarmed) < 60 else None
+
+    # L: an index into a constant table is kept in range by clamps (`if i > K { i = K }`, `i = (i + 8).min(K)`).  Every constant such a
+    # clamp lets through must be a valid index of that table: K <= len - 1.  (The taint rules accept any clamp as a bound; this
+    # rule checks the clamp's value against the table it protects.)
+    R_clamp = ctx.rule("C05.L-clamp-constants-fit-the-indexed-table", "for every index expression P into a const/static array of N elements: each constant a clamp of P lets through (`if P > K { P = K2 }`, `.min(K)`, `.clamp(_, K)`) is <= N - 1", floor=1)
+    for path in sorted(reach):
+        f = cg.fns[path]
+        if "::tests::" in path or not f.hir:
+            continue
+        crate_h = ctx.prog.crate(path.split("::")[0]) if path.split("::")[0] in CRATES else None
+        if crate_h is None:
+            continue
+        body = f.hir["body"]
+        tabs = {}
+        for n in hirq.walk(body):
+            if n.get("k") != "index":
+                continue
+            b_ = hirq.strip(n["e"])
+            if b_.get("k") == "path" and str((b_.get("res") or {}).get("dk", "")).startswith(("Const", "Static")):
+                m_ = re.search(r"\[[\w:]+; (\d+)\]", crate_h.ty(b_.get("t")) or "")
+                ix = hirq.strip(n["i"])
+                while ix.get("k") == "cast":
+                    ix = hirq.strip(ix["e"])
+                if m_ and ix.get("k") in ("index", "path", "field"):
+                    tabs.setdefault(hirq.render(ix), (int(m_.group(1)), b_["res"]["def"].split("::")[-1]))
+        if not tabs:
+            continue
+        def cval(e, N):
+            e = hirq.strip(e)
+            if e.get("k") == "mcall" and e["m"] == "len" and str((hirq.strip(e["recv"]).get("res") or {}).get("dk", "")).startswith(("Const", "Static")):
+                return N
+            if e.get("k") == "bin" and e["op"] in ("-", "+"):
+                a_, b2 = cval(e["l"], N), cval(e["r"], N)
+                return None if a_ is None or b2 is None else (a_ - b2 if e["op"] == "-" else a_ + b2)
+            return _cint(e)
+        for P, (N, tname) in sorted(tabs.items()):
+            clamps = []
+            for n in hirq.walk(body):
+                if n.get("k") == "assign" and hirq.render(n["l"]) == P:
+                    for x in hirq.walk(n["r"]):
+                        if x.get("k") == "mcall" and x["m"] in ("min", "clamp") and x.get("args"):
+                            clamps.append((cval(x["args"][-1], N), "`%s`" % hirq.render(x)[:50], x.get("ln")))
+                        if x.get("k") == "call" and re.search(r"cmp::min$", x.get("fn") or "") and len(x.get("args") or []) == 2:
+                            ks = [cval(a_, N) for a_ in x["args"]]
+                            clamps.append((next((k_ for k_ in ks if k_ is not None), None), "`%s`" % hirq.render(x)[:50], x.get("ln")))
+                if n.get("k") == "if":
+                    c_ = hirq.strip(n["c"])
+                    if c_.get("k") == "bin" and c_["op"] in (">", ">=") and hirq.render(c_["l"]) == P:
+                        for a_ in hirq.walk(n["then"]):
+                            if a_.get("k") == "assign" and hirq.render(a_["l"]) == P and cval(a_["r"], N) is not None:
+                                kk = cval(c_["r"], N)
+                                # values that pass the test unclamped reach kk (for `>`) or kk - 1 (for `>=`)
+                                thru = None if kk is None else (kk if c_["op"] == ">" else kk - 1)
+                                clamps.append((max(cval(a_["r"], N), thru if thru is not None else 0), "`if %s { %s = %s }`" % (hirq.render(c_)[:40], P[:30], hirq.render(a_["r"])[:12]), n.get("ln")))
+            for kmax, what, ln in clamps:
+                if kmax is None:
+                    continue
+                ctx.call_sites += 1
+                inst = {"fn": path, "index": P[:40], "table": "%s[%d]" % (tname, N), "clamp": what, "lets_through": kmax}
+                if kmax <= N - 1:
+                    ctx.ok(R_clamp, inst)
+                else:
+                    ctx.bad(R_clamp, "L|%s|%s|%s" % (path, tname, re.sub(r"\s+", "", what)[:40]), "%s:%d" % (f.file, ln or 0), "%s lets the index `%s` reach %d; `%s` has %d elements (last index %d)" % (what, P[:40], kmax, tname, N, N - 1),
+                            "input that drives the index to the clamp makes the next table lookup panic (index out of bounds) instead of decoding or failing cleanly")
+
     # J: an index guarded by an *inclusive* upper bound (`if i <= n { v[i] }`, `if i > n { return Err } .. v[i]`): the guard admits
     # i == n, one past the end of a container of n elements.  Expected count on a correct tree is zero; instances of the guard
     # shape (exclusive forms included) are counted so that the rule is seen to look at something.
